@@ -124,6 +124,8 @@ def get_atomic_sequence(xsd_type: Optional[XsdTypeProtocol],
     def decode(s: str) -> aliases.AtomicType:
         if isinstance(value, (dt.AbstractDateTime, dt.Duration)):
             return value.fromstring(s)
+        elif isinstance(value, bool):
+            return dt.BooleanProxy(s)  # bool('false') is True
         elif not isinstance(value, dt.AbstractQName):
             return value.__class__(s)
         else:
